@@ -56,6 +56,7 @@ def gen_notice_stays(rnd):
     screens = [dict(id=0, name="S0", title=None, text="hub", height=30, input_required=True, no_separator=False, skip_check=False,
                     scripts={"input": [{"ret": rnd.choice(["PROCESSED", "REDRAW", "DISCARDED"])} for _ in range(5)]}),
                dict(id=1, name="S1", title=None, text="working...", height=30, input_required=False, no_separator=False, skip_check=False, scripts={})]
+    if rnd.random() < 0.5: screens[0]["hidden"] = True           # the waiting prompt hides what is typed (password)
     handlers = [dict(cls="U0", hid=0, data=None, scripts=[[["push_modal", 1, rnd.choice([None, 1])]], []]),
                 dict(cls="U1", hid=1, data=None, scripts=[[["close_sig", 1]], []])]
     init = [["schedule", 0, None], ["enq", "U0", 0, None, 901]]
